@@ -10,6 +10,12 @@ CHECKS = {
          'Seeded sequential histories through the real HTTP pipeline, biased to allocation traffic on tight inventories; after every accepted allocation write the capacity/unit invariant is evaluated on the stored rows and an over-commit ledger is kept over the history. Exploration is the right level: the property quantifies over histories and inputs, which are sampled, not enumerated.', '3/C01'),
  'C04': ('exploration', 'seeded history simulation + before/after dump equality on every rejection',
          'Seeded histories with a high rate of writes built to be rejected at a chosen stage; for every response >= 400 the raw table dump before and after must be equal (only projects/users/consumer types may be added), for every accepted multi-entity write the stored state must equal the reference model.', '3/C04'),
+ 'C05': ('exploration', 'seeded transaction-granularity schedules of concurrent requests + commit-order CAS linearisation',
+         'Two or three generation-carrying / self-deriving provider writes run concurrently on real threads under a seeded baton-passing scheduler that pre-empts only before a top-level BEGIN (exactly the granularity the property names). A commit log (provider generations after every commit) linearises the history by commit order against the compare-and-swap specification; the successful requests are additionally replayed serially in every permutation from the start snapshot.', '3/C05'),
+ 'C06': ('exploration', 'seeded transaction-granularity schedules of concurrent requests + commit-order consumer-CAS linearisation',
+         'Concurrent PUT/POST /allocations and POST /reshaper (>= 1.28) touching one consumer, new or existing, with carried generations null/g/g-1/g+1/0; consumer compare-and-swap specification linearised by commit order from the commit log, final allocations == last success in commit order, serial-permutation replay.', '3/C06'),
+ 'C07': ('exploration', 'seeded transaction-granularity schedules + serial-permutation replay (serialisability oracle)',
+         'Batches of 2-3 allocation writes and generation-guarded inventory/trait/aggregate updates racing for one inventory, provider or consumer; oracle: some permutation of the successful requests, replayed from the start snapshot, gives each success and the same stored state; failures have no net effect; no over-commit that the serial order would not have.', '3/C07'),
  'C08': ('exploration', 'seeded history simulation + referential invariant + model verdict on DELETE',
          'Seeded histories mixing creation, replacement and deletion; the referential invariant is evaluated on the dump after every request and every DELETE is compared with the reference model (refused exactly when in use, nothing changed when refused).', '3/C08'),
  'C09': ('exploration', 'seeded history simulation + forest invariant + model verdict',
